@@ -105,7 +105,7 @@ def replay(args, outdir):
         import singlecellmultiomics.universalBamTagger.bamtagmultiome as BT
         if lemma in ('L1_contig_jobs', 'L1b_many_contigs'):
             block = astcut.cut_if(BT, 'tag_multiome_multi_processing', 'one_contig_per_process', 'body',
-                                  params=('get_contigs_with_reads', 'input_bam_path'), result='job_gen')
+                                  params=('get_contigs_with_reads', 'input_bam_path', 'contig_whitelist', 'contig_restricted'), result='job_gen')
             if lemma == 'L1b_many_contigs':
                 contigs = [('k%02d' % i, 5_000_000 if a['a'] <= i < a['b'] else 900) for i in range(a['n'])] + ([('*', 0)] if a['star'] else [])
             else:
@@ -113,9 +113,15 @@ def replay(args, outdir):
                 contigs = [(names[i], l) for i, l in enumerate([a['l0'], a['l1'], a['l2'], a['l3'], a['l4']][:a['n']])]
                 if a['star'] >= 0:
                     contigs.insert(a['star'], ('*', 0))
-            clause = S.check_contig_jobs(block, contigs)
-            desc = 'contigs (idxstats order) = %r' % (contigs,)
-            if clause is not None:
+            restrict = None if a.get('sel', -1) < 0 else names[a['sel']] if lemma == 'L1_contig_jobs' else None
+            clause = S.check_contig_jobs(block, contigs, restrict)
+            desc = 'contigs (idxstats order) = %r, -contig %r' % (contigs, restrict)
+            if clause is not None and restrict is not None:
+                def g2(path, with_length=False):
+                    for c, l in contigs:
+                        yield (c, l) if with_length else c
+                desc += ' -> jobs %r' % (block(g2, 'x', [restrict], True),)
+            if clause is not None and restrict is None:
                 try:
                     cli = _cli_contig_mode(contigs)
                     if cli is not None and cli['lost'] == 0 and cli['dup'] == 0:
@@ -126,7 +132,7 @@ def replay(args, outdir):
                 def g(path, with_length=False):
                     for c, l in contigs:
                         yield (c, l) if with_length else c
-                desc += ' -> jobs %r' % (block(g, 'x'),)
+                desc += ' -> jobs %r' % (block(g, 'x', [c for c, l in contigs], False),)
         else:
             raw = astcut.cut_if(BT, 'tag_multiome_multi_processing', 'one_contig_per_process', 'orelse',
                                 params=('input_bam_path', 'bp_per_segment', 'fragment_size', 'bp_per_job', 'contig_whitelist', 'blacklist_path'),
